@@ -6,7 +6,7 @@ package multi
 
 //@ func (*multi.Multi).Exists
 //@   props C19
-//@   requires m != nil
+//@   requires m != nil && forall(i, 0, len(m.loaders), m.loaders[i] != nil)
 //@   modifies ghost NL
 //@   nopanic
 //@   loop 0 invariant -1 <= rangeindex && rangeindex < len(m.loaders) && visits("(Loader).Exists", 0) == rangeindex + 1
@@ -16,7 +16,7 @@ package multi
 
 //@ func (*multi.Multi).Open
 //@   props C19
-//@   requires m != nil
+//@   requires m != nil && forall(i, 0, len(m.loaders), m.loaders[i] != nil)
 //@   modifies ghost NL
 //@   nopanic
 //@   loop 0 invariant -1 <= rangeindex && rangeindex < len(m.loaders) && visits("(Loader).Open", 0) == rangeindex + 1
@@ -26,7 +26,7 @@ package multi
 
 //@ func (*multi.Multi).AddLoaders
 //@   props C19
-//@   requires m != nil
+//@   requires m != nil && forall(i, 0, len(m.loaders), m.loaders[i] != nil)
 //@   modifies m.loaders
 //@   nopanic
 //@   ensures [added-loaders-go-last] len(m.loaders) == old(len(m.loaders)) + len(loaders) && forall(i, 0, old(len(m.loaders)), m.loaders[i] == old(m.loaders[i])) && forall(j, 0, len(loaders), m.loaders[old(len(m.loaders)) + j] == loaders[j])
